@@ -426,6 +426,11 @@ static void COTmrReset(CO_TMR *tmr)
     tmr->Elapsed = 0;
     tmr->Free    = tmr->TPool;
     tmr->Acts    = tmr->APool;
+    if (tmr->Max == 0) {
+        /* a pool without any block: nothing can be created */
+        tmr->Free = 0;
+        tmr->Acts = 0;
+    }
 
     for (blk = 1; blk <= tmr->Max; blk++) {
         if (blk < tmr->Max) {
